@@ -322,7 +322,7 @@ ByteArray decodeBase64(const char* src0, int n)
 			i = 0;
 		}
 	}
-	result.resize(int(dest - result.data()) - e);
+	result.resize(max(0, int(dest - result.data()) - e));
 	return result;
 }
 
